@@ -53,13 +53,15 @@ pub struct CorpusCfg {
     pub ir_var_types_fallback: bool,
     /// further finite spaces driven with the same callbacks after this one (label, configuration)
     pub extra: Vec<(&'static str, CorpusCfg)>,
+    /// thorough tier: share of the remaining budget the streamed (deepest) layer may use
+    pub stream_share: f64,
     /// restrict this space to the named datasets of the universe (None = all)
     pub only_datasets: Option<Vec<&'static str>>,
 }
 
 impl CorpusCfg {
     pub fn new(k: usize) -> Self {
-        CorpusCfg { k, gen: GenCfg::default(), wide_args: false, args_cap_per_var: 2, max_arg_maps: 8, keep: None, seeds: qgen::skeletons(), ir_var_types_fallback: false, extra: vec![], only_datasets: None }
+        CorpusCfg { k, gen: GenCfg::default(), wide_args: false, args_cap_per_var: 2, max_arg_maps: 8, keep: None, seeds: qgen::skeletons(), ir_var_types_fallback: false, extra: vec![], only_datasets: None, stream_share: 0.5 }
     }
 }
 
@@ -260,11 +262,28 @@ pub fn drive(
         }
         stats.completed_k = li;
     }
+    // further spaces go before the streamed (deepest) layer: lower bounds are completed first
+    let mut extra_stats: Vec<(String, CorpusStats)> = vec![];
+    let mut extra_cases = 0;
+    let mut extra_capped = false;
+    for (label, sub) in &cfg.extra {
+        if ctx.elapsed() > budget || capped.load(Ordering::Relaxed) {
+            extra_capped = true;
+            break;
+        }
+        let st = drive(ctx, uni, sub, per_query, per_case, on_frontend_panic);
+        extra_cases += st.cases;
+        extra_capped |= st.capped;
+        extra_stats.push((label.to_string(), st));
+    }
     // streamed layers beyond the materialised ones
-    if cfg.k > base_k && !capped.load(Ordering::Relaxed) {
+    if cfg.k > base_k && !capped.load(Ordering::Relaxed) && !extra_capped {
         assert!(cfg.k == base_k + 1, "only one streamed layer is supported");
         let gen3 = AtomicU64::new(0);
         let layer_capped = AtomicBool::new(false);
+        // In the thorough tier a streamed layer may use at most `stream_share` of the budget that is
+        // left when it starts, so that the spaces a check drives afterwards still get their turn.
+        let budget = if ctx.tier == crate::common::Tier::Thorough { ctx.elapsed() + (budget - ctx.elapsed()).max(0.0) * cfg.stream_share } else { budget };
         layers[base_k].par_iter().for_each(|q| {
             if ctx.elapsed() > budget {
                 layer_capped.store(true, Ordering::Relaxed);
@@ -302,16 +321,9 @@ pub fn drive(
     stats.rejected_kinds = kinds.into_inner().unwrap();
     stats.frontend_panic_keys = pkeys.into_inner().unwrap();
     stats.distinct_ir = irs.into_inner().unwrap().len() as u64;
-    for (label, sub) in &cfg.extra {
-        if ctx.elapsed() > budget {
-            stats.capped = true;
-            break;
-        }
-        let st = drive(ctx, uni, sub, per_query, per_case, on_frontend_panic);
-        stats.cases += st.cases;
-        stats.capped |= st.capped;
-        stats.extra.push((label.to_string(), st));
-    }
+    stats.cases += extra_cases;
+    stats.capped |= extra_capped;
+    stats.extra = extra_stats;
     stats
 }
 
